@@ -96,6 +96,7 @@ class Interp:
         self.classes = {}              # qual -> ClassVal
         self.module_cache = {}         # (module, name) -> value
         self.symconst = symbolic_constants or {}   # "constants.avogadro_number" -> Symbol
+        self.call_log = None           # when a list: (callable, args, kwargs) of every package function called
         self.stubs = stubs or {}       # qual -> python callable(interp, args, kwargs)
         self.arrays = set(arrays)      # symbols that stand for numpy arrays
         self.raises = []               # (cond, exc, where) conditional raises seen
@@ -713,6 +714,9 @@ class Interp:
 
     # ------------------------------------------------------------------- calls
     def call(self, fn, args, kwargs, where=None):
+        if self.call_log is not None and isinstance(fn, (Closure, BoundMethod)):
+            from .symval import GenVal as _GV          # (an iterator argument is recorded as what it still holds at the call)
+            self.call_log.append((fn, [list(a.items[a.pos:]) if isinstance(a, _GV) else a for a in args], dict(kwargs)))
         if isinstance(fn, BoundMethod):
             return self.call(fn.fn, [fn.selfval] + list(args), kwargs, where)
         if isinstance(fn, Builtin):
